@@ -12,10 +12,12 @@ echo "demo_pkg_dir=$pkg"; echo "demo_cmd=$cmd"
 demo=$(ls $m/*_test.go | head -1)
 cp "$demo" "$wt/$pkg/zz_demo_test.go"
 run_demo() { (cd "$wt" && timeout 300 go test -tags verif -vet=off -count=1 -timeout 120s -run 'Demo|C0[0-9]|M[12]' ./$pkg 2>&1 | tail -5); }
-echo "--- demo on unchanged tree"; run_demo | tail -3
+echo "--- demo on unchanged tree"; run_demo | grep -E "^(ok|FAIL|---|panic)" | tail -3
 git apply --check "$m/patch.diff" || { echo "PATCH DOES NOT APPLY"; exit 1; }
 git apply "$m/patch.diff"
 echo "--- builds"; go build -tags verif . ./socket ./codec ./utils ./xfer/... ./proto/... ./plugin/... ./mixer/websocket/... && go build . ./socket ./codec ./utils ./xfer/... ./proto/... ./plugin/... && echo BUILD_OK
+rm -f "$wt/$pkg/zz_demo_test.go"   # the pinned suite is run without the demonstration
 echo "--- pinned suite"; go test -mod=mod -vet=off -count=1 ./codec ./socket ./utils ./xfer/gzip ./mixer/websocket/websocket 2>&1 | tail -6
+cp "$demo" "$wt/$pkg/zz_demo_test.go"
 echo "--- demo with patch"; run_demo | tail -4
 git checkout -q -- . ; git clean -fdq -e _out
